@@ -24,6 +24,9 @@ PROPS = {
              required_probes=["c25.produce-while-unhealthy", "c25.fetch-while-unhealthy", "c25.meta-sample"]),
     "C44": P("w1", quick_runs=3000, thorough_runs=150000, quick_budget_s=100, thorough_budget_s=1500,
              required_probes=["c44.download-judged", "c44.replica-lagging", "c44.replica-missing"]),
+    "C41": P("w1", race=True, quick_runs=1200, thorough_runs=60000, quick_budget_s=120, thorough_budget_s=1800,
+             technique="deterministic simulation under the Go race detector: the simulator's own hand-offs are hidden from the detector (RaceDisable), so it reports unsynchronised accesses of repo code along each explored schedule",
+             level_note="as strong as the Go race detector along the explored schedules; reports whose two accesses are not both in repo code (harness/stub memory) are ignored"),
 }
 
 NA = {
